@@ -134,8 +134,10 @@ pub fn check(ctx: &mut Ctx, c: &Case) -> Outcome {
         let mut bo = BinOpts { clear_env: true, ..Default::default() };
         if let Some(room) = c.xargs_room {
             bo.stack_limit = Some(256 << 10);
-            // budget 131072 - 2048 headroom - environment; pad the environment up to the wanted room
-            let pad = (131_072usize - 2_048 - 600).saturating_sub(room as usize);
+            // budget 131072 - 2048 headroom - what xargs sets aside for the name of the executed file
+            // (twice PATH_MAX and an interpreter line, see its new_system) - environment; pad the
+            // environment up to the wanted room
+            let pad = (131_072usize - 2_048 - (2 * 4_096 + 256) - 600).saturating_sub(room as usize);
             let mut left = pad;
             let mut i = 0;
             while left > 100 {
